@@ -106,7 +106,7 @@ def eval_adverb_each_index(f, a, op, backend):
     return f(backend.kg_asarray([0, a]))
 
 
-def eval_adverb_each2(f, a, b):
+def eval_adverb_each2(f, a, b, backend):
     """
 
         a f'b                                                   [Each-2]
@@ -127,8 +127,8 @@ def eval_adverb_each2(f, a, b):
         return bknp.asarray([]) if is_list(a) or is_list(b) else ""
     if is_atom(a) and is_atom(b):
         return f(a,b)
-    r = bknp.asarray([f(x,y) for x,y in zip(a,b)])
-    return ''.join(r) if r.dtype == '<U1' else r
+    r = [f(x,y) for x,y in zip(a,b)]
+    return ''.join(r) if all(isinstance(u, str) and len(u) == 1 for u in r) else backend.kg_asarray(r)
 
 
 def eval_adverb_each_left(f, a, b, backend):
@@ -440,7 +440,7 @@ def get_adverb_fn(klong, s, arity):
     backend = klong._backend
 
     if s == "'":
-        return eval_adverb_each2 if arity == 2 else lambda f,a,op: eval_adverb_each(f,a,op,backend)
+        return (lambda f,a,b: eval_adverb_each2(f,a,b,backend)) if arity == 2 else lambda f,a,op: eval_adverb_each(f,a,op,backend)
     elif s == '/':
         return eval_adverb_over_neutral if arity == 2 else lambda f,a,op: eval_adverb_over(f,a,op,backend)
     elif s == '\\':
